@@ -85,11 +85,12 @@ class WorkRaised(Exception):
     pass
 
 
-def T(uid, fault='none', raises='none', cores=1, soe=False, out=False):
+def T(uid, fault='none', raises='none', cores=1, soe=False, out=False, prio=0):
     '''fault: a task-level failure; raises: the work() of that component raises
        for the bulk containing this task; soe: stage_on_error; out: the task
        writes out.dat and asks for it to be transferred to the client'''
-    return {'uid': uid, 'fault': fault, 'raises': raises, 'cores': cores, 'soe': soe, 'out': out}
+    return {'uid': uid, 'fault': fault, 'raises': raises, 'cores': cores, 'soe': soe, 'out': out,
+            'prio': prio}
 
 
 class Scenario(object):
@@ -369,7 +370,7 @@ class PipelineRig(object):
     # task construction: faults are real data
     def _descr(self, t):
         d = {'uid': t['uid'], 'executable': '/bin/true', 'ranks': 1, 'cores_per_rank': t['cores'],
-             'input_staging': [], 'output_staging': []}
+             'input_staging': [], 'output_staging': [], 'priority': t.get('prio', 0)}
         f = t['fault']
         if f == 'tin':
             d['input_staging'].append({'source': 'client:///missing.dat', 'target': 'task:///m.dat',
@@ -447,7 +448,7 @@ class PipelineRig(object):
     def do(self, step):
         kind, _, arg = step.partition(':')
         self.cur = {'ev': kind, 'arg': arg or 'none', 'pub': [], 'push': [], 'raised': [],
-                    'killed': [], 'uids': [], 'err': 'none'}
+                    'killed': [], 'uids': [], 'err': 'none', 'spawned': []}
         fake_time = mock.Mock()
         fake_time.sleep = self.sr.sleep
         fake_time.time  = lambda: 1.0
@@ -461,6 +462,7 @@ class PipelineRig(object):
                 raise OSError('cannot spawn')
             p = rig.FakeProc(uid)
             rig.procs[uid] = p
+            rig.cur['spawned'].append(uid)
             return p
         try:
             with mock.patch.object(sbase, 'time', fake_time), \
@@ -588,7 +590,7 @@ class PipelineRig(object):
                 self.do(st)
                 n += 1
             self.events.append({'ev': 'end', 'arg': 'none', 'pub': [], 'push': [], 'raised': [],
-                                'killed': [], 'uids': [], 'err': 'none' if n < max_steps else 'step limit',
+                                'killed': [], 'uids': [], 'spawned': [], 'err': 'none' if n < max_steps else 'step limit',
                                 'client': self.client_states(), 'pool': self.sr.proj_pool(),
                                 'free': sum(1 for nd in self.sr.child.nodes for c in nd['cores'] if c == rpc.FREE),
                                 'intasks': sorted(self.ex._tasks.keys()), 'live': self.live_cores()})
